@@ -142,7 +142,8 @@ GraphSpec cycleWithChords(bool directed, unsigned n, Rng &r) {
         if (seen.insert(e).second) g.edges.push_back(e);
     }
     for (unsigned t = 0; t < n / 2; ++t) {
-        Edge e = canon(directed, r.u(n), r.u(n));
+        VertexIndex ca = r.u(n), cb = r.u(n); // sequenced: argument evaluation order is unspecified
+        Edge e = canon(directed, ca, cb);
         if (seen.insert(e).second) g.edges.push_back(e);
     }
     return g;
@@ -293,6 +294,12 @@ std::string validatePath(const std::vector<std::vector<VertexIndex>> &adj, const
 const uint64_t GUARD = 2000000; // hang guard for the behavioural checks (C19 uses the exact bounds)
 
 // ------------------------------------------------------------------ C11
+std::string *digestSink = nullptr; // results of the searches, appended in call order (C17 digest)
+template <class V> void sink(const V &v) {
+    if (!digestSink) return;
+    for (auto x : v) *digestSink += std::to_string(x) + ",";
+    *digestSink += ";";
+}
 template <class G> std::string c11(const G &g, bool exhaustivePairs) {
     auto adj = adjacency(g);
     unsigned n = (unsigned)g.getSize();
@@ -311,6 +318,8 @@ template <class G> std::string c11(const G &g, bool exhaustivePairs) {
             g.budget = GUARD;
             auto sp = alg::findVertexPredecessors(g, s);
             if (sp.first.size() != n || sp.second.size() != n) return "findVertexPredecessors: result vectors do not have one entry per vertex";
+            sink(sp.first);
+            sink(sp.second);
             for (VertexIndex v = 0; v < n; ++v) {
                 ++C.distChecks;
                 if (sp.first[v] != d[v]) {
@@ -329,6 +338,7 @@ template <class G> std::string c11(const G &g, bool exhaustivePairs) {
             g.scans = 0;
             auto ap = alg::findAllVertexPredecessors(g, s);
             if (ap.first.size() != n || ap.second.size() != n) return "findAllVertexPredecessors: result vectors do not have one entry per vertex";
+            for (auto &pl : ap.second) sink(pl);
             for (VertexIndex v = 0; v < n; ++v) {
                 ++C.distChecks;
                 if (ap.first[v] != d[v]) {
@@ -351,6 +361,7 @@ template <class G> std::string c11(const G &g, bool exhaustivePairs) {
             auto fromV = alg::findGeodesicsFromVertex(g, s);
             if (fromV.size() != n) return "findGeodesicsFromVertex: result does not have one path per vertex";
             for (VertexIndex t = 0; t < n; ++t) {
+                sink(fromV[t]);
                 std::string e = validatePath(adj, d, s, t, fromV[t], "findGeodesicsFromVertex");
                 if (!e.empty()) return e;
             }
@@ -391,6 +402,7 @@ template <class G> std::string c11(const G &g, bool exhaustivePairs) {
                     ++C.allPathSets;
                     std::set<std::vector<VertexIndex>> gs;
                     for (auto &pp : got) {
+                        sink(pp);
                         std::string e2 = validatePath(adj, d, s, t, pp, fn);
                         if (!e2.empty()) return e2;
                         if (!gs.insert(std::vector<VertexIndex>(pp.begin(), pp.end())).second) {
@@ -442,7 +454,13 @@ WSpec weigh(const GraphSpec &s, int alphabet, Rng &r) {
         switch (alphabet) {
         case 0: w = (double)r.u(4); break;
         case 1: w = (double)r.u(129) / 16.0; break;
-        case 2: w = r.chance(1, 10) ? 0.0 : r.unit() * std::pow(10.0, (double)r.u(7) - 3); break;
+        case 2: {
+            bool zero = r.chance(1, 10);
+            double mant = r.unit();
+            double mag = std::pow(10.0, (double)r.u(7) - 3);
+            w = zero ? 0.0 : mant * mag;
+            break;
+        }
         default: w = 0.0;
         }
         ws.w[e] = w;
@@ -490,6 +508,14 @@ template <class G> std::string c12(const G &g, const WSpec &ws, uint64_t budgetO
                 C.maxScanRatioPermille = std::max(C.maxScanRatioPermille, ratio);
             }
             if (res.first.size() != n || res.second.size() != n) return "findGeodesicsDijkstra: result vectors do not have one entry per vertex";
+            if (digestSink) {
+                for (auto x : res.first) {
+                    char b[40];
+                    snprintf(b, sizeof b, "%.17g,", x);
+                    *digestSink += b;
+                }
+                sink(res.second);
+            }
             if (res.first[s] != 0) {
                 o << "findGeodesicsDijkstra(source " << s << "): distance of the source is " << res.first[s];
                 return o.str();
@@ -660,7 +686,8 @@ int main(int argc, char **argv) {
             ++C.graphs;
             R.distinct.insert(mix64(s.hash(), variant));
             Rng r = caseRng(seed, 0xc11, idx);
-            std::string e, cls;
+            std::string e, cls, dg;
+            digestSink = &dg;
             if (prop == "C11") {
                 bool intLabel = idx % 2;
                 if (s.directed) {
@@ -688,6 +715,8 @@ int main(int argc, char **argv) {
                     }
                 }
             }
+            digestSink = nullptr;
+            R.digest(dg);
             if (!e.empty()) R.violation(cls + "/" + obs(e), e + " on " + curDesc);
             if (idx % 499 == 7 && R.samples.size() < 5) R.sample("{\"graph\": " + q(curDesc) + "}");
         });
